@@ -130,6 +130,54 @@ func init() {
 		}
 		return VL(VI(0), obs)
 	})
+	// bufio.ops <script> <size> <ops>: the real bufio.Reader driven call by call ([0] ReadByte, [1] UnreadByte,
+	// [2 n] Peek n, [3 k] Read into k bytes)
+	register("bufio.ops", func(a []Val) Val {
+		sr := &scriptReader{}
+		for _, e := range a[0].L {
+			sr.chunks = append(sr.chunks, append([]byte{}, e.L[0].B...))
+			sr.errs = append(sr.errs, codeErr(e.L[1].Int()))
+		}
+		r := bufio.NewReaderSize(sr, a[1].Int())
+		outs := []Val{}
+		ec := func(err error) Val {
+			if err == nil {
+				return VI(0)
+			}
+			return VI(int64(ioErrCode(err)))
+		}
+		for _, o := range a[2].L {
+			switch o.L[0].Int() {
+			case 0:
+				c, err := r.ReadByte()
+				if err != nil {
+					outs = append(outs, VL(VI(1), ec(err)))
+				} else {
+					outs = append(outs, VL(VI(0), VI(int64(c))))
+				}
+			case 1:
+				if err := r.UnreadByte(); err != nil {
+					outs = append(outs, VL(VI(1), ec(err)))
+				} else {
+					outs = append(outs, VL(VI(0)))
+				}
+			case 2:
+				b, err := r.Peek(o.L[1].Int())
+				if err != nil {
+					outs = append(outs, VL(VI(1), ec(err)))
+				} else {
+					outs = append(outs, VL(VI(0), VB(b)))
+				}
+			case 3:
+				p := make([]byte, o.L[1].Int())
+				n, err := r.Read(p)
+				outs = append(outs, VL(VB(p[:n]), ec(err)))
+			default:
+				return VBad()
+			}
+		}
+		return Val{K: 2, L: outs}
+	})
 	// pw.write <p> <k> <mfail> <mok> <adapter>
 	register("pw.write", func(a []Val) Val {
 		p := append([]byte{}, a[0].B...)
